@@ -116,6 +116,7 @@ func (c *channel) cancelPendingMsgs() {
 	c.responseMut.Lock()
 	defer c.responseMut.Unlock()
 	for msgID, router := range c.responseRouters {
+		verifMsg("msg.cancel", c, msgID)
 		router.c <- response{nid: c.node.ID(), err: streamDownErr}
 		// delete the router if we are only expecting a single reply message
 		if !router.streaming {
@@ -142,6 +143,7 @@ func (c *channel) enqueue(req request, responseChan chan<- response, streaming b
 		c.responseRouters[req.msg.Metadata.MessageID] = responseRouter{responseChan, streaming}
 		c.responseMut.Unlock()
 	}
+	verifMsg("msg.enq", c, req.msg.Metadata.MessageID)
 	verifPoint("enq.registered", c)
 	// either enqueue the request on the sendQ or respond
 	// with error if the node is closed
@@ -205,9 +207,13 @@ func (c *channel) sendMsg(req request) (err error) {
 		}
 	}()
 
+	verifMsg("msg.write", c, req.msg.Metadata.MessageID)
 	verifPoint("snd.beforeWrite", c)
 	err = c.gorumsStream.SendMsg(req.msg)
 	verifPoint("snd.afterWrite", c)
+	if err != nil {
+		verifMsg("msg.writeErr", c, req.msg.Metadata.MessageID)
+	}
 	if err != nil {
 		c.setLastErr(err)
 		c.streamBroken.set()
@@ -259,6 +265,7 @@ func (c *channel) receiver() {
 			c.streamBroken.set()
 			c.streamMut.RUnlock()
 			verifPoint("rcv.unlocked", c)
+			verifMsg("rcv.failed", c, 0)
 			c.setLastErr(err)
 			// we only reach this point when the stream failed AFTER a message
 			// was sent and we are waiting for a reply. We thus need to respond
@@ -269,6 +276,7 @@ func (c *channel) receiver() {
 			c.reconnect(-1)
 		} else {
 			c.streamMut.RUnlock()
+			verifMsg("msg.recv", c, resp.Metadata.MessageID)
 			verifPoint("rcv.beforeRoute", c)
 			err := status.FromProto(resp.Metadata.GetStatus()).Err()
 			c.routeResponse(resp.Metadata.MessageID, response{nid: c.node.ID(), msg: resp.Message, err: err})
